@@ -13,10 +13,11 @@ target's), once, and changes nothing of the object but what is listed.
   Group.dump_tree(controls)       /g_dumpTree gid int(controls)
 
 `self.server.addr.send_msg(...)` is a ghost trace event ('send_msg', args); sending itself
-(encoding, NetAddr) is C06/C07's. The methods with *args processing (set, map, setn, fill,
-seti), release, query and the constructors are bounded only (driver C17).
+(encoding, NetAddr) is C06/C07's. set/map/mapa/fill, release, query, Synth.get/getn and the
+constructors are further down; setn, seti, mapn/mapan are bounded only (driver C17).
 """
 import z3
+from vf.pyvc import values as VV
 from vf.pyvc.spec import contract, REGISTRY
 from vf.pyvc.values import *
 from vf.pyvc.engine import Raised, Unsupported
@@ -442,3 +443,192 @@ contract(FSV, 'Server._free_all_buffers', props=('C17', 'C16'), params={'self': 
          fields={'Server': {'_buffer_allocator': 'obj'}, 'ABlock': {}, 'MsgList': {}},
          hooks={'getattr': fab_getattr, 'new_list': fab_new_list},
          class_modules={'Server': FSV, 'ABlock': FSV, 'MsgList': FSV}, native=False)
+
+
+# ---- commands whose arguments are converted lists (set, map, mapa, fill, mapn, mapan, release, get, getn, query) ----
+# "/n_set id <converted args...>": ONE message, the reference command, this node's id, and then exactly the
+# converted argument sequence (gpp.node_param(args)._as_osc_arg_list() / _as_control_input() - the conversion is
+# a ghost call on exactly the arguments given; what it produces is C17's bounded part and C06's encoding).
+G = 'sc3/synth/_graphparam.py'
+
+
+def np_pol(eng, selfv, args, kwargs, st, node):
+    return [(st, V('obj', oid='node-param!%d' % next(eng.counter), extra={'param_of': args[0]}))]
+
+
+def dyn_getattr(eng, obj, name, st, node):
+    if obj.k == 'obj' and obj.extra and 'param_of' in obj.extra and name in ('_as_osc_arg_list', '_as_control_input'):
+        def conv(eng, a, kw, st, node, _o=obj, _n=name):
+            r = V('obj', oid='converted!%d' % next(eng.counter), extra={'converted': (_n, _o.extra['param_of'])})
+            return [(st, r)]
+        return [(st, V('func', py=('spec', conv)))]
+    if obj.k == 'obj' and str(obj.oid).startswith('addr-of:') and name == 'send_bundle':
+        def sendb(eng, args, kwargs, st, node, _o=obj):
+            st.trace.append(('send_bundle', _o.oid, tuple(args)))
+            return [(st, NONE)]
+        return [(st, V('func', py=('spec', sendb)))]
+    if obj.k == 'obj' and str(obj.oid).endswith('.server') and name == 'latency':
+        return [(st, V('obj', oid='server-latency'))]
+    if obj.k == 'module' and name == 'OscFunc':
+        return [(st, V('class', py='OscFunc'))]
+    if obj.k == 'obj' and obj.extra and 'responder' in obj.extra and name == 'one_shot':
+        def one_shot(eng, a, kw, st, node, _o=obj):
+            st.trace.append(('one-shot', _o))
+            return [(st, NONE)]
+        return [(st, V('func', py=('spec', one_shot)))]
+    return h_getattr(eng, obj, name, st, node)
+
+
+REPLY = z3.Function('reply_item', z3.IntSort(), VV.Any)
+NREPLY = z3.Int('reply.len')
+
+
+def dyn_construct(eng, f, args, kwargs, st, node):
+    if f.k == 'class' and f.py == 'OscFunc':
+        r = V('obj', oid='responder!%d' % next(eng.counter), extra={'responder': (tuple(args), dict(kwargs))})
+        handled = None
+        if args and args[0].k == 'func' and args[0].py[0] == 'closure' and args[0].py[1].name != '<lambda>':
+            # what the reply handler DOES with a reply: run once on an arbitrary reply message
+            probe = st.fork()
+            n0 = len(probe.trace)
+            msg = V('seq', extra={'len': NREPLY, 'reply': True, 'get': (lambda e_, i, s_: V('any', REPLY(i)))})
+            probe.pc.append(NREPLY >= 8)
+            handled = []
+            for st1, res in eng.call_closure(args[0], [msg, V('obj', oid='t'), V('obj', oid='a'), V('obj', oid='p')], {}, probe, node):
+                handled.append(([e for e in st1.trace[n0:] if e[0] == 'action-called'], isinstance(res, Raised)))
+        st.trace.append(('responder', tuple(args), dict(kwargs), r, handled))
+        return [(st, r)]
+    return None
+
+
+def action_pol(eng, selfv, args, kwargs, st, node):
+    st.trace.append(('action-called', tuple(args)))
+    return [(st, NONE)]
+
+
+def handler_passes(what):
+    """the reply handler calls the caller's action once with the value(s) of the reply: item 3 / items 4.."""
+    def post(c):
+        rs = [e for e in c.trace if e[0] == 'responder']
+        if len(rs) != 1 or rs[0][4] is None or len(rs[0][4]) != 1:
+            return z3.BoolVal(False)
+        calls, raised = rs[0][4][0]
+        if raised or len(calls) != 1 or len(calls[0][1]) != 2 or calls[0][1][0] is not c._params['action']:
+            return z3.BoolVal(False)
+        v = calls[0][1][1]
+        if what == 'item3':
+            return v.z == REPLY(3) if v.k == 'any' else z3.BoolVal(False)
+        so = v.extra.get('slice_of') if v.k == 'seq' and v.extra else None
+        if so is None or not so[0].get('reply'):
+            return z3.BoolVal(False)
+        return z3.Implies(NREPLY >= 8, z3.And(so[1] == 4, v.extra['len'] == NREPLY - 4))
+    return post
+
+
+def starred_conversion(a, which, params_args):
+    """the argument after the fixed ones is *<conversion of exactly the args given>"""
+    if a.k != 'star':
+        return False
+    sq = a.extra.get('seq')
+    conv = sq.extra.get('converted') if sq is not None and sq.k == 'obj' and sq.extra else None
+    return conv is not None and conv[0] == which and conv[1] is params_args
+
+
+def dyn_msg(address, which, fixed=()):
+    def post(c):
+        s = [e for e in c.trace if e[0] in ('send_msg', 'send_bundle')]
+        if len(s) != 1 or s[0][0] != 'send_msg' or s[0][1] != OWN:
+            return z3.BoolVal(False)
+        a = s[0][2]
+        n_fixed = 2 + len(fixed)
+        ok = (len(a) == n_fixed + 1 and a[0].k == 'str' and a[0].py == address and a[1].k == 'int'
+              and all(a[2 + i] is c._params[p] for i, p in enumerate(fixed))
+              and starred_conversion(a[n_fixed], which, c._params['args']))
+        return z3.And(z3.BoolVal(bool(ok)), a[1].z == c.pre.self.node_id) if ok else z3.BoolVal(False)
+    return post
+
+
+def args_tuple_kind(eng, name):
+    return V('obj', oid='the-args')
+
+
+DYN = dict(fields=FIELDS, hooks={'getattr': dyn_getattr, 'construct': dyn_construct}, native=False,
+           class_modules={k: F for k in FIELDS}, policies={G + '::node_param': np_pol})
+for meth, address, which in (('set', '/n_set', '_as_osc_arg_list'), ('map', '/n_map', '_as_control_input'),
+                             ('mapa', '/n_mapa', '_as_control_input')):
+    contract(F, 'Node.' + meth, props=('C17',), params={'self': 'self', 'args': args_tuple_kind},
+             ensures=[('one-reference-command,own-id,then-exactly-the-converted-arguments', dyn_msg(address, which))],
+             modifies=[], **DYN)
+contract(F, 'Node.fill', props=('C17',),
+         params={'self': 'self', 'cname': 'obj', 'num_controls': 'obj', 'value': 'obj', 'args': args_tuple_kind},
+         ensures=[('one-reference-command,own-id,the-first-triple,then-the-converted-rest',
+                   dyn_msg('/n_fill', '_as_control_input', ('cname', 'num_controls', 'value')))],
+         modifies=[], **DYN)
+
+
+# release: a gate of 0 (normal release), -1 (immediately), or -(time + 1) (forced release in `time` seconds),
+# set on THIS node in a bundle stamped with the server's latency
+def release_post(c):
+    s = [e for e in c.trace if e[0] in ('send_msg', 'send_bundle')]
+    if len(s) != 1 or s[0][0] != 'send_bundle' or s[0][1] != OWN or len(s[0][2]) != 2:
+        return z3.BoolVal(False)
+    lat, msg = s[0][2]
+    ok = (lat.k == 'obj' and lat.oid == 'server-latency' and msg.k == 'list' and msg.items is not None and len(msg.items) == 4
+          and msg.items[0].k == 'str' and msg.items[0].py == '/n_set' and msg.items[1].k == 'int'
+          and msg.items[2].k == 'str' and msg.items[2].py == 'gate' and is_num(msg.items[3]))
+    if not ok:
+        return z3.BoolVal(False)
+    gate = to_real(msg.items[3])
+    if c.kinds['time'] == 'none':
+        want = gate == 0
+    else:
+        t = z3.ToReal(c.time) if z3.is_int(c.time) else c.time
+        want = gate == z3.If(t <= 0, -1, -(t + 1))
+    return z3.And(msg.items[1].z == c.pre.self.node_id, want)
+
+
+contract(F, 'Node.release', props=('C17',), params={'self': 'self', 'time': ['none', 'int', 'real']},
+         ensures=[('gate-0|-1|-(time+1)-on-own-id,in-a-bundle-at-the-server-latency', release_post)],
+         modifies=[], **DYN)
+
+
+# get / getn / query: the reply is awaited BEFORE the request is sent - a one-shot responder for the reply address,
+# from this node's server, filtered by this node's id (and the control asked for) - and then ONE request
+def ask_post(request, reply, template, extra):
+    def post(c):
+        t = [e for e in c.trace if e[0] in ('responder', 'one-shot', 'send_msg', 'send_bundle')]
+        if [e[0] for e in t] != ['responder', 'one-shot', 'send_msg']:
+            return z3.BoolVal(False)
+        rsp, one, snd = t
+        pos, kw = rsp[1], rsp[2]
+        tpl = kw.get('arg_template')
+        ok = (len(pos) == 3 and pos[1].k == 'str' and pos[1].py == reply
+              and pos[2].k == 'obj' and pos[2].oid == OWN                     # replies from THIS node's server
+              and one[1] is rsp[3]                                             # made one-shot
+              and tpl is not None and tpl.k == 'list' and tpl.items is not None and len(tpl.items) == len(template)
+              and tpl.items[0].k == 'int'
+              and all(tpl.items[1 + i] is c._params[p] for i, p in enumerate(template[1:]))
+              and snd[1] == OWN and len(snd[2]) == 2 + len(extra) and snd[2][0].k == 'str' and snd[2][0].py == request
+              and snd[2][1].k == 'int' and all(snd[2][2 + i] is c._params[p] for i, p in enumerate(extra)))
+        if not ok:
+            return z3.BoolVal(False)
+        return z3.And(tpl.items[0].z == c.pre.self.node_id, snd[2][1].z == c.pre.self.node_id)
+    return post
+
+
+contract(F, 'Synth.get', props=('C17',), params={'self': 'self', 'index': 'obj', 'action': 'obj'},
+         ensures=[('one-shot-responder-for-the-reply-filtered-by-own-id-and-control,then-one-request',
+                   ask_post('/s_get', '/n_set', ['id', 'index'], ['index'])),
+                  ('the-reply-handler-hands-the-value-of-the-reply-to-the-action', handler_passes('item3'))],
+         modifies=[], **dict(DYN, fields=dict(FIELDS, Synth=NODE), class_modules=dict({k: F for k in FIELDS}, Synth=F),
+                             policies={G + '::node_param': np_pol, 'sc3/base/functions.py::value': action_pol}))
+contract(F, 'Synth.getn', props=('C17',), params={'self': 'self', 'index': 'obj', 'count': 'obj', 'action': 'obj'},
+         ensures=[('one-shot-responder-for-the-reply-filtered-by-own-id-and-control,then-one-request',
+                   ask_post('/s_getn', '/n_setn', ['id', 'index'], ['index', 'count'])),
+                  ('the-reply-handler-hands-the-values-of-the-reply-to-the-action', handler_passes('from4'))],
+         modifies=[], **dict(DYN, fields=dict(FIELDS, Synth=NODE), class_modules=dict({k: F for k in FIELDS}, Synth=F),
+                             policies={G + '::node_param': np_pol, 'sc3/base/functions.py::value': action_pol}))
+contract(F, 'Node.query', props=('C17',), params={'self': 'self', 'action': 'obj'},
+         ensures=[('one-shot-responder-for-the-reply-filtered-by-own-id,then-one-request',
+                   ask_post('/n_query', '/n_info', ['id'], []))],
+         modifies=[], **DYN)
